@@ -232,6 +232,8 @@ def run(ctx):
                      f"verifier does not compare {cname}.{a}; no generator gap feeds it today (IR field parsed and rendered: R4/R5), so nothing is lost",
                      val.functions["_collect"].node, nontrivial=False)
                 c.note(f"C17.R4 verifier blind spot (unarmed, no generator gap today): {cname}.{a}")
+    # a declared invoke input that is falsy ({} / 0 / '' / False) is still rendered
+    shared.none_is_the_only_absence(ctx, "R9", [(None, "one", "inv.input")])
     # ---- R9 whether a field is rendered depends on that field alone ----------------------------------------------
     # An `if` that guards the emission of obj.f may test the presence of obj.f; a test that also consults another field of
     # the same IR object (`inv.id != inv.src`) drops the field for some inputs although the engine gives it a meaning of
